@@ -38,6 +38,7 @@ type Profile struct {
 	StmtYield bool   `json:"stmt_yield,omitempty"`  // sqlite: yield at every statement start
 	Shared    bool   `json:"shared_conn,omitempty"` // sqlite: clients share one backend object
 	Reopen    bool   `json:"reopen,omitempty"`
+	Procs     bool   `json:"procs,omitempty"` // sqlite: every client is a separate OS process
 	Steps     int    `json:"steps"`
 }
 
@@ -54,6 +55,10 @@ func MakeProfile(prop string, seed uint64, tier string) *Profile {
 		p.Shared = r.Chance(1, 4)
 		p.StmtYield = !p.Shared && r.Chance(2, 3)
 		p.Reopen = r.Chance(1, 2)
+		if r.Chance(1, 16) || (tier == "thorough" && r.Chance(1, 4)) {
+			p.Procs, p.Shared, p.StmtYield = true, false, false
+			p.Tag = "sqlite+processes"
+		}
 	default:
 		if r.Chance(1, 2) {
 			p.FaultW = []int{5, 15}[r.Intn(2)]
@@ -95,6 +100,7 @@ type client struct {
 	idx    int
 	be     ctlog.LockBackend
 	sq     *ctlog.SQLiteBackend
+	proc   *procBackend
 	last   map[int]ctlog.LockedCheckpoint
 	script []opSpec
 	pos    int
@@ -120,6 +126,7 @@ type world struct {
 	closedSQ map[*ctlog.SQLiteBackend]bool
 	noteMu   sync.Mutex
 	notes    []string
+	children []*procBackend
 }
 
 func (w *world) flush() {
@@ -152,6 +159,9 @@ func Run(t *testing.T, seed uint64, prof *Profile, replay []core.Cmd, keepLog bo
 			if !w.closedSQ[b] {
 				b.VerifClose()
 			}
+		}
+		for _, ch := range w.children {
+			ch.stop()
 		}
 		os.RemoveAll(tmp)
 	}()
@@ -241,6 +251,15 @@ func (w *world) openBackend(c *client) error {
 	ctx := context.Background()
 	switch p.Backend {
 	case "sqlite":
+		if p.Procs {
+			ch, err := startChild(w.dbPath)
+			if err != nil {
+				return err
+			}
+			w.children = append(w.children, ch)
+			c.be, c.proc = ch, ch
+			return nil
+		}
 		if p.Shared {
 			if w.sharedBE == nil {
 				b, err := ctlog.NewSQLiteBackend(ctx, w.dbPath, discard)
@@ -506,7 +525,15 @@ func (w *world) startOp(c *client) {
 	s := c.script[c.pos]
 	c.pos++
 	if s.kind == "reopen" {
-		if c.sq != nil && !w.prof.Shared {
+		if c.proc != nil {
+			// the process exits and a new one opens the database
+			c.proc.stop()
+			if err := w.openBackend(c); err != nil {
+				panic(err)
+			}
+			c.last = map[int]ctlog.LockedCheckpoint{}
+			w.sim.Probe("reopen.process")
+		} else if c.sq != nil && !w.prof.Shared {
 			c.sq.VerifClose()
 			w.closedSQ[c.sq] = true
 			if err := w.openBackend(c); err != nil {
